@@ -1,3 +1,5 @@
+//go:build !no_c15
+
 package props
 
 import (
